@@ -32,6 +32,7 @@ def exc_class(name: str):
         return ScriptExhausted
     c = getattr(builtins, name)
     assert isinstance(c, type) and issubclass(c, BaseException)
+    c()   # the scripted classes are raised without arguments
     return c
 
 
@@ -255,7 +256,7 @@ def source_cases(wide: bool) -> list[dict]:
     # load: open, read, close, parse, validate — every combination of ok / raising
     doc = {"rules": [], "algorithm": "deny-overrides"}
     oks = [("file",), ("val", '{"rules": []}'), ("val", None), ("val", doc), ("val", None)]
-    classes = ["FileNotFoundError", "ValueError", "KeyboardInterrupt"] + (["OSError", "SystemExit", "UnicodeDecodeError"] if wide else [])
+    classes = ["FileNotFoundError", "ValueError", "KeyboardInterrupt"] + (["OSError", "SystemExit", "IsADirectoryError"] if wide else [])
     for path, vs in itertools.product(["/d/policy.json", "rules.YAML"], [False, True] + ([1, None] if wide else [])):
         for sc in itertools.product(*[[None] + classes] * 5):
             script = [oks[i] if c is None else ("raised", c) for i, c in enumerate(sc)]
